@@ -13,7 +13,7 @@ import (
 
 // C08Seg is one piece of the emitted stream.
 type C08Seg struct {
-	Kind  string // "echo" | "reply" | "rogue" (unsolicited message, Body = framed bytes)
+	Kind  string // "echo" | "reply" | "rogue" (unsolicited message, Body = framed bytes) | "msg" (notification)
 	To    int    // reply: index (0-based) of the request it answers
 	Body  []byte // reply: framed bytes through the end marker; echo: the echoed bytes
 	Tail  []byte // reply: bytes after the end marker
@@ -30,6 +30,16 @@ type C08Plan struct {
 	// Before/After: indices of earlier late requests whose replies are emitted right before /
 	// right after this request's own reply (or at that point when this request gets none).
 	Before, After []int
+	// NotifBefore / NotifAfter: notifications (unsolicited, well-formed messages) emitted right
+	// before / right after this request's own reply
+	NotifBefore, NotifAfter []C08Notif
+}
+
+// C08Notif is one unsolicited message (an RFC 5277 notification, typically).
+type C08Notif struct {
+	Payload []byte
+	Chunks  []int
+	Tag     int // opaque, copied into the segment log (C08Seg.To)
 }
 
 const (
@@ -56,15 +66,25 @@ type C08Server struct {
 	logging   bool
 	finalLF   bool // the next client write is the return that follows a completed request
 	sent      map[int]bool
-	corking   bool     // output is being collected until the final return of the request arrives
-	cork      [][]byte // collected output; a nil item is a read boundary
+	// PlanOrder[i] = index of the plan for the i-th request that arrives (nil: identity). Lets the
+	// harness keep call indices when the request of some call never reaches the server (write
+	// failure on the client side).
+	PlanOrder []int
+	reqOf     map[int]int // plan index -> index into Requests
+	// FailFinalWrite[i]: once request i is complete, the client's next write (the final return of
+	// a 1.1 request) fails
+	FailFinalWrite map[int]bool
+	// Mute: the server is dead, it neither echoes nor answers (used together with a read fault)
+	Mute    bool
+	corking bool     // output is being collected until the final return of the request arrives
+	cork    [][]byte // collected output; a nil item is a read boundary
 }
 
 func NewC08Server(caps11 bool) *C08Server { return NewC08ServerCaps(true, caps11) }
 
 // NewC08ServerCaps builds a server advertising base:1.0 and/or base:1.1.
 func NewC08ServerCaps(caps10, caps11 bool) *C08Server {
-	x := &C08Server{NCServer: NewNCServer(caps10, caps11), sent: map[int]bool{}}
+	x := &C08Server{NCServer: NewNCServer(caps10, caps11), sent: map[int]bool{}, reqOf: map[int]int{}}
 	x.NCServer.Behave = x.behave
 	x.Pipe.OnWrite = x.onWrite
 	return x
@@ -115,7 +135,32 @@ func (x *C08Server) flush() {
 	x.cork = nil
 }
 
+// emitNotif frames and emits one unsolicited message between read boundaries.
+func (x *C08Server) emitNotif(n C08Notif) {
+	fr := x.Frame(NCReply{Payload: n.Payload, Chunks: n.Chunks})
+	bodyLen := len(fr)
+	if x.Version == "1.1" || x.TrailingLF {
+		bodyLen = len(fr) - 1
+	}
+	x.bar()
+	x.logSeg(C08Seg{Kind: "msg", To: n.Tag, Body: append([]byte{}, fr[:bodyLen]...), Tail: append([]byte{}, fr[bodyLen:]...)})
+	x.out(fr)
+	x.bar()
+}
+
+// EmitNotification sends an unsolicited message now (between calls).
+func (x *C08Server) EmitNotification(n C08Notif) {
+	x.Mu.Lock()
+	if !x.Mute {
+		x.emitNotif(n)
+	}
+	x.Mu.Unlock()
+}
+
 func (x *C08Server) onWrite(b []byte) {
+	if x.Mute {
+		return
+	}
 	final := x.finalLF
 	x.finalLF = false
 	if x.EchoMode != C08EchoOff && x.logging {
@@ -144,8 +189,8 @@ func (x *C08Server) emitReplyOf(i int, merged bool) {
 	x.sent[i] = true
 	p := x.Plans[i]
 	pay := p.Payload
-	if len(x.IDToken) > 0 && i < len(x.Requests) {
-		pay = bytes.ReplaceAll(pay, x.IDToken, []byte(strconv.Itoa(x.Requests[i].MessageID)))
+	if ri, ok := x.reqOf[i]; ok && len(x.IDToken) > 0 && ri < len(x.Requests) {
+		pay = bytes.ReplaceAll(pay, x.IDToken, []byte(strconv.Itoa(x.Requests[ri].MessageID)))
 	}
 	fr := x.Frame(NCReply{Payload: pay, Chunks: p.Chunks})
 	bodyLen := len(fr)
@@ -165,10 +210,21 @@ func (x *C08Server) emitReplyOf(i int, merged bool) {
 }
 
 // behave runs with the pipe locked, from NCServer.request.
-func (x *C08Server) behave(i int, _ NCRequest) NCReply {
+func (x *C08Server) behave(ri int, _ NCRequest) NCReply {
 	x.finalLF = true
+	i := ri
+	if x.PlanOrder != nil {
+		if ri >= len(x.PlanOrder) {
+			return NCReply{Never: true}
+		}
+		i = x.PlanOrder[ri]
+	}
 	if i >= len(x.Plans) {
 		return NCReply{Never: true}
+	}
+	x.reqOf[i] = ri
+	if x.FailFinalWrite[i] {
+		x.WriteErrAfter = x.Written
 	}
 	p := x.Plans[i]
 	if rg, ok := x.Rogue[i]; ok {
@@ -178,16 +234,22 @@ func (x *C08Server) behave(i int, _ NCRequest) NCReply {
 		x.out(fr)
 		x.bar()
 	}
+	for _, n := range p.NotifBefore {
+		x.emitNotif(n)
+	}
 	for _, j := range p.Before {
 		x.emitReplyOf(j, false)
 	}
 	if p.Mode == 0 {
 		_, rogue := x.Rogue[i]
-		merged := (x.EchoMode == C08EchoMerged || x.EchoMode == C08EchoCoalesced) && len(p.Before) == 0 && !rogue
+		merged := (x.EchoMode == C08EchoMerged || x.EchoMode == C08EchoCoalesced) && len(p.Before) == 0 && !rogue && len(p.NotifBefore) == 0
 		x.emitReplyOf(i, merged)
 	}
 	for _, j := range p.After {
 		x.emitReplyOf(j, false)
+	}
+	for _, n := range p.NotifAfter {
+		x.emitNotif(n)
 	}
 	return NCReply{Never: true}
 }
@@ -195,8 +257,22 @@ func (x *C08Server) behave(i int, _ NCRequest) NCReply {
 // ReleaseLate emits the kept reply of request i now (between calls).
 func (x *C08Server) ReleaseLate(i int) {
 	x.Mu.Lock()
-	x.emitReplyOf(i, false)
+	if !x.Mute {
+		x.emitReplyOf(i, false)
+	}
 	x.Mu.Unlock()
+}
+
+// RequestIDOf returns the message-id the server saw in the request that plan i answered (-1: that
+// request never arrived). Caller holds no lock.
+func (x *C08Server) RequestIDOf(i int) (id int, frameOK bool) {
+	x.Mu.Lock()
+	defer x.Mu.Unlock()
+	ri, ok := x.reqOf[i]
+	if !ok || ri >= len(x.Requests) {
+		return -1, false
+	}
+	return x.Requests[ri].MessageID, x.Requests[ri].FrameOK
 }
 
 // Quiet reports whether everything emitted has been delivered.
